@@ -37,17 +37,19 @@ func init() {
 				return gosym.RunConfig{Name: fmt.Sprintf("lifetime-a%d-u%d-t%d-acc%d-rd%d", acc, unacc, twice, accept, read), Entry: "VerifLifetime", Sched: true, Unwind: 8, AssertPrefix: "C12:",
 					Params: map[string]int64{"acc": acc, "unacc": unacc, "twice": twice, "accept": accept, "read": read, "steps": 120}, BudgetSec: budget, Optional: budget > 0}
 			}
+			after := gosym.RunConfig{Name: "after-listener-close", Entry: "VerifAfterListenerClose", Unwind: 8, AssertPrefix: "C12:"}
 			if tier == "thorough" {
-				return []gosym.RunConfig{mk(0, 0, 1, 1, 0, 0), mk(0, 1, 1, 1, 0, 0), mk(1, 0, 0, 0, 1, 0), mk(1, 0, 0, 1, 0, 0), mk(1, 0, 1, 1, 1, 1200), mk(1, 1, 0, 1, 0, 1200), mk(2, 0, 0, 0, 0, 1200)}
+				return []gosym.RunConfig{after, mk(0, 0, 1, 1, 0, 0), mk(0, 1, 1, 1, 0, 0), mk(1, 0, 0, 0, 1, 0), mk(1, 0, 0, 1, 0, 0), mk(1, 0, 1, 1, 1, 1200), mk(1, 1, 0, 1, 0, 1200), mk(2, 0, 0, 0, 0, 1200)}
 			}
-			return []gosym.RunConfig{mk(0, 0, 1, 1, 0, 0), mk(0, 1, 0, 1, 0, 0), mk(1, 0, 0, 1, 0, 0)}
+			return []gosym.RunConfig{mk(0, 0, 1, 1, 0, 0), mk(0, 1, 0, 1, 0, 0), mk(1, 0, 0, 1, 0, 0), after}
 		},
 		Bounds: func(tier string) []string {
-			return []string{"listener with (accepted, un-accepted) connections in {(0,0), (0,1), (1,0)} (thorough adds (1,1), (2,0) within a time budget); concurrently: listener Close (in some runs twice), each accepted connection Close, a pending Accept and/or a pending Read (one run per combination, see the run names); every interleaving with the read loop and the socket-closing goroutine"}
+			return []string{"sequential script: accept one connection, leave one un-accepted, close the listener, then a datagram (symbolic length 1..4 and contents) for the accepted connection and one from a new remote",
+				"listener with (accepted, un-accepted) connections in {(0,0), (0,1), (1,0)} (thorough adds (1,1), (2,0) within a time budget); concurrently: listener Close (in some runs twice), each accepted connection Close, a pending Accept and/or a pending Read (one run per combination, see the run names); every interleaving with the read loop and the socket-closing goroutine"}
 		},
 		Assume: []string{
 			"the packet socket is a harness model (datagrams from a channel, Close unblocks ReadFrom); the listener is assembled and its two goroutines are started by the harness exactly as ListenConfig.Listen does after net.ListenUDP",
 			"goroutines run atomically between scheduling points (lock, channel, select, WaitGroup.Wait, atomics)",
 		},
-		Outside: []string{"ListenConfig.Listen / net.ListenUDP / port reuse at the OS level", "batch mode", "datagrams arriving during the shutdown"}})
+		Outside: []string{"ListenConfig.Listen / net.ListenUDP / port reuse at the OS level", "batch mode", "datagrams arriving concurrently with the shutdown (before and after it: covered sequentially)"}})
 }
